@@ -64,8 +64,10 @@ GenPaths(Sx) ==
                                        ELSE {} : i \in DOMAIN f.fields}
                        ELSE {}
     IN top \cup UNION {below(Sx.fields[i][1], Sx.fields[i][2]) : i \in DOMAIN Sx.fields}
-GenSetCands(Sx) == [pk \in GenPaths(Sx) \cup {<< <<>>, "zz">>} |->
-                        IF pk[2] = "zz" THEN {IntV(1)} ELSE GenCands(FieldOf(SchemaAt(Sx, pk[1]), pk[2]))]
+\* an undeclared key at the root and in every sub-schema (accepted where the schema is dynamic)
+GenUnknown(Sx) == {<< <<>>, "zz">>} \cup {<< <<Sx.fields[i][1]>>, "zz">> : i \in {j \in DOMAIN Sx.fields : IsSchema(Sx.fields[j][2])}}
+GenSetCands(Sx) == [pk \in GenPaths(Sx) \cup GenUnknown(Sx) |->
+                        IF pk[2] = "zz" THEN {IntV(1), gs(<<"d", "y", "n">>)} ELSE GenCands(FieldOf(SchemaAt(Sx, pk[1]), pk[2]))]
 GenTrees(Sx) ==
     {DictV(<<>>)}
     \cup UNION {{GD1(KeyChars[Sx.fields[i][1]], c) : c \in GenCands(Sx.fields[i][2])} : i \in DOMAIN Sx.fields}
